@@ -112,3 +112,196 @@ Theorem conv1d_bias_additive g w (b : Z -> A) (x : pos1 -> A) q :
   conv1d_fwd g w (Some b) x q = sadd (conv1d_fwd g w None x q) (let '(_, co, _) := q in b co).
 Proof. destruct q as [[n co] wj]. reflexivity. Qed.
 End Conv1.
+
+(* ================================================================== 2-D *)
+Section Conv2.
+Context {A : Type} `{ScalarLaws A} `{!CommLaws A}.
+
+Lemma in_K2 g ci a b : In (ci, a, b) (K2 g) <-> 0 <= ci < gC g /\ 0 <= a < kH g /\ 0 <= b < kW g.
+Proof. unfold K2. rewrite !in_prod_iff, !in_zr. tauto. Qed.
+
+Lemma windows2_xpad g pv (x : pos -> A) wi wj n c a b : valid g ->
+  0 <= wi < lH g -> 0 <= wj < lW g -> 0 <= n < gN g -> 0 <= c < gC g -> 0 <= a < kH g -> 0 <= b < kW g ->
+  windows2 g pv x (wi, wj, n, c, a, b) = xpad2 g pv x (n, c, wi * sH g + a * dH g, wj * sW g + b * dW g).
+Proof. intros. unfold windows2, xpad2. now rewrite ew_closed. Qed.
+
+(* C06: the tensordot / moveaxis pipeline of conv2d_forward is the cross-correlation *)
+Theorem conv2d_is_crosscorr g (w : pos -> A) bias (x : pos -> A) n co wi wj : valid g ->
+  0 <= n < gN g -> 0 <= wi < lH g -> 0 <= wj < lW g ->
+  conv2d_fwd g w bias x (n, co, wi, wj) = crosscorr2 g w bias x (n, co, wi, wj).
+Proof.
+  intros Hv Hn Hwi Hwj. unfold conv2d_fwd, move_last_first4, bias_add4, crosscorr2, with_bias, conv2d_td.
+  assert (E : isum (K2 g) (fun k => let '(ci, a, b) := k in smul (w (co, ci, a, b)) (windows2 g s0 x (wi, wj, n, ci, a, b))) =
+              isum (K2 g) (fun k => let '(ci, a, b) := k in
+                 smul (w (co, ci, a, b)) (xpad2 g s0 x (n, ci, wi * sH g + a * dH g, wj * sW g + b * dW g)))).
+  { apply isum_ext. intros [[ci a] b] Hin. apply in_K2 in Hin as (Hci & Ha & Hb). now rewrite windows2_xpad. }
+  rewrite E. destruct bias; auto. apply sadd_comm.
+Qed.
+
+Lemma conv2d_pairing g Co (gr w : pos -> A) (win : win6 -> A) :
+  dotl (Out2 g Co) gr (move_last_first4 (conv2d_td g w win)) =
+  pairing idx3 Z idx3 (B2 g) (zr Co) (K2 g)
+    (fun o c => let '(n, wi, wj) := o in gr (n, c, wi, wj)) (fun c k => let '(ci, a, b) := k in w (c, ci, a, b))
+    (fun o k => let '(n, wi, wj) := o in let '(ci, a, b) := k in win (wi, wj, n, ci, a, b)).
+Proof.
+  unfold dotl, Out2, pairing, B2, pos, idx3. rewrite !isum_list_prod. swap1. swap2.
+  apply isum_ext; intros n _. apply isum_ext; intros wi _. apply isum_ext; intros wj _. apply isum_ext; intros co _.
+  cbn [move_last_first4 conv2d_td]. f_equal. apply isum_ext. intros [[ci a] b] _. reflexivity.
+Qed.
+
+Lemma conv2d_nobias g (w x : pos -> A) (l : list pos) (gr : pos -> A) :
+  dotl l gr (conv2d_fwd g w None x) = dotl l gr (move_last_first4 (conv2d_td g w (windows2 g s0 x))).
+Proof. apply isum_ext. intros [[[n co] wi] wj] _. reflexivity. Qed.
+
+(* C02: input gradient *)
+Theorem conv2d_vjp_x_lemma g Co (gr w x : pos -> A) : valid g ->
+  dotl (Out2 g Co) gr (conv2d_fwd g w None x) = dotl (Ipos g) (conv2d_bwd_x g Co gr w) x.
+Proof.
+  intros Hv. unfold conv2d_bwd_x. rewrite <- windows2_adjoint by auto.
+  rewrite conv2d_nobias, conv2d_pairing, pairing_x. unfold dotl. rewrite isum_Jwin.
+  unfold B2, idx3. rewrite !isum_list_prod, oH_eq, oW_eq by auto. swap0. swap1.
+  apply isum_ext; intros wi _. apply isum_ext; intros wj _. apply isum_ext; intros n _.
+  unfold K2, idx3. rewrite !isum_list_prod.
+  apply isum_ext; intros ci _. apply isum_ext; intros a _. apply isum_ext; intros b _. reflexivity.
+Qed.
+
+(* C02: weight gradient *)
+Theorem conv2d_vjp_w_lemma g Co (gr w x : pos -> A) : valid g ->
+  dotl (Out2 g Co) gr (conv2d_fwd g w None x) = dotl (Wt2 g Co) (conv2d_bwd_w g gr (windows2 g s0 x)) w.
+Proof.
+  intros Hv. rewrite conv2d_nobias, conv2d_pairing, pairing_w. unfold dotl, Wt2, pos. rewrite !isum_list_prod.
+  apply isum_ext; intros co _. unfold K2, idx3. rewrite !isum_list_prod.
+  apply isum_ext; intros ci _. apply isum_ext; intros a _. apply isum_ext; intros b _.
+  cbn [conv2d_bwd_w]. f_equal. unfold O2, B2, idx3. rewrite !isum_list_prod. swap0. swap1. reflexivity.
+Qed.
+
+(* C02: bias gradient *)
+Theorem conv2d_vjp_b_lemma g Co (gr : pos -> A) (b : Z -> A) :
+  dotl (Out2 g Co) gr (fun q => let '(_, co, _, _) := q in b co) = dotl (zr Co) (conv2d_bwd_b g gr) b.
+Proof.
+  unfold dotl, Out2, pos. rewrite !isum_list_prod. swap1. swap2.
+  transitivity (isum (B2 g) (fun o => isum (zr Co) (fun co => smul (let '(n, wi, wj) := o in gr (n, co, wi, wj)) (b co)))).
+  { unfold B2, idx3. rewrite !isum_list_prod. reflexivity. }
+  rewrite (pairing_b idx3 Z (B2 g) (zr Co) (fun o c => let '(n, wi, wj) := o in gr (n, c, wi, wj)) b).
+  apply isum_ext; intros co _. reflexivity.
+Qed.
+
+Lemma windows2_add g (x h : pos -> A) t : windows2 g s0 (fun i => sadd (x i) (h i)) t = sadd (windows2 g s0 x t) (windows2 g s0 h t).
+Proof.
+  destruct t as [[[[[wi wj] n] c] a] b]. unfold windows2. destruct (ew g wi wj n c a b); cbn [cell_val]; auto; now rewrite sadd_0_l.
+Qed.
+
+Theorem conv2d_additive_x g w bias (x h : pos -> A) q :
+  conv2d_fwd g w bias (fun i => sadd (x i) (h i)) q = sadd (conv2d_fwd g w bias x q) (conv2d_fwd g w None h q).
+Proof.
+  destruct q as [[[n co] wi] wj]. unfold conv2d_fwd, move_last_first4, bias_add4, conv2d_td.
+  assert (E : isum (K2 g) (fun k => let '(ci, a, b) := k in smul (w (co, ci, a, b)) (windows2 g s0 (fun i => sadd (x i) (h i)) (wi, wj, n, ci, a, b))) =
+              sadd (isum (K2 g) (fun k => let '(ci, a, b) := k in smul (w (co, ci, a, b)) (windows2 g s0 x (wi, wj, n, ci, a, b))))
+                   (isum (K2 g) (fun k => let '(ci, a, b) := k in smul (w (co, ci, a, b)) (windows2 g s0 h (wi, wj, n, ci, a, b))))).
+  { rewrite <- isum_add. apply isum_ext. intros [[ci a] b] _. now rewrite windows2_add, smul_add_r. }
+  rewrite E. destruct bias; auto. apply sadd_swap_r.
+Qed.
+
+Theorem conv2d_additive_w g (w v : pos -> A) bias (x : pos -> A) q :
+  conv2d_fwd g (fun i => sadd (w i) (v i)) bias x q = sadd (conv2d_fwd g w bias x q) (conv2d_fwd g v None x q).
+Proof.
+  destruct q as [[[n co] wi] wj]. unfold conv2d_fwd, move_last_first4, bias_add4, conv2d_td.
+  assert (E : isum (K2 g) (fun k => let '(ci, a, b) := k in smul (sadd (w (co, ci, a, b)) (v (co, ci, a, b))) (windows2 g s0 x (wi, wj, n, ci, a, b))) =
+              sadd (isum (K2 g) (fun k => let '(ci, a, b) := k in smul (w (co, ci, a, b)) (windows2 g s0 x (wi, wj, n, ci, a, b))))
+                   (isum (K2 g) (fun k => let '(ci, a, b) := k in smul (v (co, ci, a, b)) (windows2 g s0 x (wi, wj, n, ci, a, b))))).
+  { rewrite <- isum_add. apply isum_ext. intros [[ci a] b] _. now rewrite smul_add_l. }
+  rewrite E. destruct bias; auto. apply sadd_swap_r.
+Qed.
+
+Theorem conv2d_bias_additive g w (b : Z -> A) (x : pos -> A) q :
+  conv2d_fwd g w (Some b) x q = sadd (conv2d_fwd g w None x q) (let '(_, co, _, _) := q in b co).
+Proof. destruct q as [[[n co] wi] wj]. reflexivity. Qed.
+End Conv2.
+
+(* ================================================================== unfold / fold, and convolution = matrix product with unfold *)
+Lemma row_split g c a b : 0 < kH g -> 0 < kW g -> 0 <= a < kH g -> 0 <= b < kW g ->
+  let r := (c * kH g + a) * kW g + b in
+  r / (kH g * kW g) = c /\ (r / kW g) mod kH g = a /\ r mod kW g = b.
+Proof.
+  intros HkH HkW Ha Hb r.
+  assert (Eb : r mod kW g = b) by (eapply mod_unique'; eauto; reflexivity).
+  assert (Dk : r / kW g = c * kH g + a) by (eapply div_unique'; eauto; reflexivity).
+  assert (Ea : (r / kW g) mod kH g = a) by (rewrite Dk; eapply mod_unique'; eauto).
+  assert (Ec : r / (kH g * kW g) = c).
+  { apply (div_unique' _ _ c (a * kW g + b)). nia. unfold r. ring. }
+  auto.
+Qed.
+
+Lemma row_range g c a b : 0 <= c < gC g -> 0 <= a < kH g -> 0 <= b < kW g -> 0 <= (c * kH g + a) * kW g + b < nR g.
+Proof.
+  intros Hc Ha Hb. pose proof (mul_lt_bound c (kH g) a (gC g) Hc Ha) as B1.
+  pose proof (mul_lt_bound _ (kW g) b _ B1 Hb) as B2. unfold nR. lia.
+Qed.
+Lemma col_range g wi wj : 0 <= wi < lH g -> 0 <= wj < lW g -> 0 <= wi * lW g + wj < nL g.
+Proof. intros Hi Hj. pose proof (mul_lt_bound wi (lW g) wj (lH g) Hi Hj). unfold nL. lia. Qed.
+
+Section Unfold.
+Context {A : Type} `{ScalarLaws A}.
+
+(* C06 unfold_layout: row r = ci*kH*kW + a*kW + b (channel-major kernel index), column l = wi*lW + wj (row-major block index);
+   the entry is the padded input at (n, ci, wi*sH + a*dH, wj*sW + b*dW) *)
+Theorem unfold_layout_rl g pv (x : pos -> A) n r l : valid g -> 0 <= n < gN g -> 0 <= r < nR g -> 0 <= l < nL g ->
+  unfold_fwd g pv x (n, r, l) =
+  xpad2 g pv x (n, r / (kH g * kW g), ((r / kW g) mod kH g) * dH g + sH g * (l / lW g), (r mod kW g) * dW g + sW g * (l mod lW g)).
+Proof.
+  intros Hv Hn Hr Hl. unfold unfold_fwd, im2col_apply, xpad2. rewrite fast_unf_closed by auto. reflexivity.
+Qed.
+
+Theorem unfold_layout g pv (x : pos -> A) n c a b wi wj : valid g ->
+  0 <= n < gN g -> 0 <= c < gC g -> 0 <= a < kH g -> 0 <= b < kW g -> 0 <= wi < lH g -> 0 <= wj < lW g ->
+  unfold_fwd g pv x (n, (c * kH g + a) * kW g + b, wi * lW g + wj) =
+  xpad2 g pv x (n, c, wi * sH g + a * dH g, wj * sW g + b * dW g).
+Proof.
+  intros Hv Hn Hc Ha Hb Hwi Hwj. unfold unfold_fwd, im2col_apply, xpad2.
+  rewrite fast_unf_closed by (auto using row_range, col_range).
+  rewrite phi_of_win by (auto; lia). reflexivity.
+Qed.
+
+(* C06 fold_sums_overlaps: pixel i of fold(y) is the sum of all entries of y whose (row, column) reads pixel i in unfold *)
+Theorem fold_sums_overlaps g (y : idx3 -> A) i : valid g ->
+  fold_fwd g y i = isum (Junf g) (fun j => match phi_opt g j with Some i' => if pos_eqb i' i then y j else s0 | None => s0 end).
+Proof. intros Hv. unfold fold_fwd. exact (col2im_unf_scatter VFast g y i Hv). Qed.
+
+(* C02: unfold and fold are each other's transpose *)
+Theorem unfold_fold_adjoint g (x : pos -> A) (y : idx3 -> A) : valid g ->
+  dotl (Junf g) y (unfold_fwd g s0 x) = dotl (Ipos g) (fold_fwd g y) x.
+Proof. intros Hv. exact (adjoint_unf VFast VFast g x y Hv). Qed.
+
+(* a non-zero pad value only adds a constant: unfold is affine with linear part unfold(., pad 0) *)
+Theorem unfold_additive g pv (x h : pos -> A) j :
+  unfold_fwd g pv (fun i => sadd (x i) (h i)) j = sadd (unfold_fwd g pv x j) (unfold_fwd g s0 h j).
+Proof.
+  unfold unfold_fwd, im2col_apply. destruct (fast_unf g j); cbn [cell_val]; auto; now rewrite sadd_0_r.
+Qed.
+Theorem fold_additive g (y z : idx3 -> A) i :
+  fold_fwd g (fun j => sadd (y j) (z j)) i = sadd (fold_fwd g y i) (fold_fwd g z i).
+Proof.
+  unfold fold_fwd, col2im_apply. rewrite <- isum_add. apply isum_ext. intros [j [t|]] _; cbn [fst snd].
+  - destruct (pos_eqb t i); auto. now rewrite sadd_0_l.
+  - now rewrite sadd_0_l.
+Qed.
+End Unfold.
+
+Section ConvUnfold.
+Context {A : Type} `{ScalarLaws A} `{!CommLaws A}.
+
+(* C14: conv2d(x, w, b)[n] = w.reshape(C_out, -1) @ unfold(x)[n] + b, reshaped to the output grid *)
+Theorem conv_is_unfold_matmul_lemma g (w : pos -> A) bias (x : pos -> A) n co wi wj : valid g ->
+  0 <= n < gN g -> 0 <= wi < lH g -> 0 <= wj < lW g ->
+  conv2d_fwd g w bias x (n, co, wi, wj) = conv_via_unfold g w bias x (n, co, wi, wj).
+Proof.
+  intros Hv Hn Hwi Hwj. rewrite conv2d_is_crosscorr by auto.
+  unfold crosscorr2, conv_via_unfold. f_equal.
+  rewrite isum_zr_R by auto. unfold K2, idx3. rewrite !isum_list_prod.
+  apply isum_ext; intros ci Hci. apply isum_ext; intros a Ha. apply isum_ext; intros b Hb.
+  apply in_zr in Hci. apply in_zr in Ha. apply in_zr in Hb.
+  rewrite unfold_layout by auto. unfold w_flat.
+  pose proof Hv as Hv'. dv Hv'.
+  destruct (row_split g ci a b HkH HkW Ha Hb) as (E1 & E2 & E3). cbv zeta in E1, E2, E3. rewrite E1, E2, E3. reflexivity.
+Qed.
+End ConvUnfold.
